@@ -128,6 +128,10 @@ func (l vConnLog) Debug(format string, fields ...LogField) {
 
 var errVOtherCmd = errors.New("verif: command failed (other)")
 
+// a command error that is NOT io.EOF but wraps it (errors.Is(err, io.EOF) holds, err == io.EOF does not): the property
+// retries "if it fails with io.EOF"; any other outcome goes back to the caller unchanged
+var errVOtherWrapsEOF = fmt.Errorf("verif: command failed (other): %w", io.EOF)
+
 type vConnEngine struct {
 	ev              *vEvents
 	t0              time.Time
@@ -389,7 +393,7 @@ func vErrClassConn(err error) string {
 		return "ok"
 	case io.EOF:
 		return "eof"
-	case errVOtherCmd:
+	case errVOtherCmd, errVOtherWrapsEOF:
 		return "other"
 	case errVFatalDial, errVOnConnectFatal:
 		return "connect-fatal"
@@ -510,6 +514,9 @@ func vRunConn(c vCase) []string {
 					case "retriable":
 						return vRetriableErr{id}
 					case "other":
+						if n, e := strconv.Atoi(id); e == nil && n%2 == 1 {
+							return errVOtherWrapsEOF
+						}
 						return errVOtherCmd
 					}
 					return nil
